@@ -12,6 +12,7 @@ def message_classes(world):
         'interface': Opt(STR), 'path': Opt(STR), 'sender': Opt(STR), 'destination': Opt(STR),
         'member': Opt(STR), 'error_name': Opt(STR), 'reply_serial': Opt(INT),
         'unix_fds': INT, 'unix_fds?set': BOOL, 'oobFDs': OPAQUE,
+        '_messageType': INT,          # per-subclass class attribute, mirrored as a field of the abstract message
     }))
     for n in ('MethodCallMessage', 'MethodReturnMessage', 'ErrorMessage', 'SignalMessage'):
         world.add_class(ClassSpec(n, getattr(message, n), {}, bases=('DBusMessage',)))
